@@ -13,7 +13,7 @@ import (
 	"verif/checker/ssax"
 )
 
-func init() { Registry["C05"] = Spec{Run: runC05} }
+func init() { Registry["C05"] = Spec{Run: runC05, Packages: []string{"cache"}} }
 
 const cachePkg = core.ModPath + "/cache"
 
